@@ -75,6 +75,12 @@ package netlist
 //@     invariant forall k int :: 0 <= k && k < len(out) ==> exists j int :: 0 <= j && j < it0 && out[k] == list.e[j]
 //@     invariant[slow] forall j int :: 0 <= j && j < it0 ==> exists k int :: 0 <= k && k < len(out) && out[k].addr.v <= list.e[j].addr.v && plast(list.e[j].addr.v, list.e[j].bits) <= plast(out[k].addr.v, out[k].bits)
 //@     invariant it0 > 0 ==> out[len(out)-1].addr.v <= list.e[it0-1].addr.v
+// (cheap companion of the [slow] coverage invariant, checked in the quick tier too) an iteration
+// that does not append either leaves the last output block alone or replaces it by a block with the
+// same base address that is at least as wide, and every block before the last is left alone
+//@     each athead(len(out)) > 0 && len(out) == athead(len(out)) ==> out[len(out)-1].addr == athead(out[len(out)-1].addr) && out[len(out)-1].bits <= athead(out[len(out)-1].bits)
+//@     each athead(len(out)) > 0 ==> len(out) == athead(len(out)) || len(out) == athead(len(out)) + 1
+//@     each forall k int :: 0 <= k && k + 1 < athead(len(out)) ==> out[k] == athead(out[k])
 
 // Contains: binary search for the last block starting at or before the address.
 //@ func (list *List) Contains [C13]
